@@ -5,35 +5,32 @@ histories of `register_or_name_value` / `register_or_name_node` calls, i.e. ever
 -/
 import IrVerif.Model.Names
 import IrVerif.Lemmas.Names
+import IrVerif.Lemmas.NamesIdem
+import IrVerif.Lemmas.NamesModel
+import IrVerif.Lemmas.NamesRename
 namespace IrVerif.Names
 
 /-! ### C15_loop_terminates -/
 
 /-- **C15_loop_terminates**: the `while True` loops of `_unique_value_name` and
-`_unique_node_name` end after at most `|seen| + 1` iterations, for every seen set (explicit names
-shaped like generated ones included), every counter value and every `op_type`; a larger budget
-returns the same name and counter (so the budgeted loop *is* the unbounded one). -/
+`_unique_node_name`, and the `while` loop of NameFixPass's `_find_and_record_next_unique_name`
+(candidates `base_k`), end after at most `|seen| + 1` iterations, for every seen set (explicit names
+shaped like generated ones included), every counter value, every `op_type` and every base name; a
+larger budget returns the same name and counter (so the budgeted loop *is* the unbounded one). -/
 theorem C15_loop_terminates (seen : List String) (c : Nat) (op : String) :
     (∃ r, uniqueLoop valName seen (seen.length + 1) c = some r
         ∧ ∀ fuel, seen.length + 1 ≤ fuel → uniqueLoop valName seen fuel c = some r)
     ∧ (∃ r, uniqueLoop (nodeName op) seen (seen.length + 1) c = some r
-        ∧ ∀ fuel, seen.length + 1 ≤ fuel → uniqueLoop (nodeName op) seen fuel c = some r) := by
-  constructor
+        ∧ ∀ fuel, seen.length + 1 ≤ fuel → uniqueLoop (nodeName op) seen fuel c = some r)
+    ∧ (∃ r, uniqueLoop (sufName op) seen (seen.length + 1) c = some r
+        ∧ ∀ fuel, seen.length + 1 ≤ fuel → uniqueLoop (sufName op) seen fuel c = some r) := by
+  refine ⟨?_, ?_, ?_⟩
   · obtain ⟨r, hr⟩ := uniqueLoop_total valName (fun _ _ => valName_inj) seen c
     exact ⟨r, hr, fun fuel h => uniqueLoop_mono _ _ _ _ _ hr _ h⟩
   · obtain ⟨r, hr⟩ := uniqueLoop_total (nodeName op) (fun _ _ => nodeName_inj op) seen c
     exact ⟨r, hr, fun fuel h => uniqueLoop_mono _ _ _ _ _ hr _ h⟩
-
-/-- the name returned by the unbounded loop: not seen, made from a counter value `≥ c`, and the
-counter moves past it -/
-theorem uniqueFrom_spec (mk : Nat → String) (hinj : ∀ a b, mk a = mk b → a = b)
-    (seen : List String) (c : Nat) :
-    ∃ k, c ≤ k ∧ (uniqueFrom mk seen c) = (mk k, k + 1) ∧ mk k ∉ seen
-      ∧ ∀ j, c ≤ j → j < k → mk j ∈ seen := by
-  obtain ⟨⟨n, c'⟩, hr⟩ := uniqueLoop_total mk hinj seen c
-  obtain ⟨k, h1, _, h3, h4, h5, h6⟩ := uniqueLoop_spec mk seen _ c n c' hr
-  refine ⟨k, h1, ?_, h3 ▸ h5, h6⟩
-  simp [uniqueFrom, hr, h3, h4]
+  · obtain ⟨r, hr⟩ := uniqueLoop_total (sufName op) (fun _ _ => sufName_inj_k op) seen c
+    exact ⟨r, hr, fun fuel h => uniqueLoop_mono _ _ _ _ _ hr _ h⟩
 
 /-! ### one call -/
 
@@ -207,5 +204,274 @@ example : ((run [.value none, .value (some "val_0"), .value none] {}).2.map (·.
 
 example : ((run [.node none "Add", .node (some "node_Add_1") "Mul", .node none "Add"] {}).2.map (·.name))
     = ["node_Add_0", "node_Add_1", "node_Add_2"] := by decide
+
+
+/-! ## Part B — NameFixPass, one `_fix_graph_names` call (`fixTop`: the main graph or one function)
+
+Hypotheses used below, all decidable on a concrete model and reported by the harness:
+* `InitsOk w` — every initializer dictionary is keyed by the current names of its values, names
+  non-empty, `is_initializer()/graph` consistent (the kernel invariant `I_key`);
+* `Closed w.initOf t` — initializers mentioned under `t` belong to graphs under `t`;
+* `scopedB w.inits t.tr [] [] = true` — **the scoping rule**: a value is only used in the graph that
+  first mentions it or in graphs nested in it after that first mention (DESIGN, C15 **P**);
+* `(allNodes t.body).Nodup` — a node object occurs once in the tree.
+`allScopes w.inits t.tr []` lists, for every graph under `t`, the values recorded in enclosing
+scopes before the graph was entered followed by the graph's own values (inputs, outputs,
+initializers, node inputs and outputs); `allNodeScopes t.tr` lists every graph's nodes. -/
+
+/-- **C15_namefix_call_total**: on a world whose initializers are keyed by their names the call never
+raises — whatever the scoping — and keeps the dictionaries keyed by names. -/
+theorem C15_namefix_call_total (w : World) (t : Top) (hok : InitsOk w) (hcl : Closed w.initOf t) :
+    (fixTop w t).raised = false ∧ InitsOk (fixTop w t).toWorld :=
+  ⟨(fixTop_TInv hok hcl).nr, (fixTop_TInv hok hcl).ok⟩
+
+/-- **C15_namefix_call_post**: after the call
+(1) every value visible in any graph has a non-empty name, and the names are pairwise different
+    within every graph and different from the names recorded in enclosing scopes on entry;
+(2) every node has a non-empty name, pairwise different within every graph;
+(3) every initializer dictionary is keyed by the current names (`InitsOk`);
+(4) nothing but names changed as far as the model can tell: the `is_initializer`/graph links are
+    the same, every dictionary holds the same values, and values the call cannot meet keep their
+    names (graph structure, node inputs/outputs etc. are not outputs of the model at all: the tree
+    `t` is read-only). -/
+theorem C15_namefix_call_post (w : World) (t : Top) (hok : InitsOk w) (hcl : Closed w.initOf t)
+    (hsc : scopedB w.inits t.tr [] [] = true) (hnd : (allNodes t.body).Nodup) :
+    (∀ L ∈ allScopes w.inits t.tr [], InjT (fixTop w t).vname L)
+    ∧ (∀ L ∈ allNodeScopes t.tr, InjT (fixTop w t).nname L)
+    ∧ InitsOk (fixTop w t).toWorld
+    ∧ (fixTop w t).initOf = w.initOf
+    ∧ (∀ g u, u ∈ (fixTop w t).toWorld.inits g ↔ u ∈ w.inits g)
+    ∧ (∀ u, u ∉ mentioned t.tr → (∀ g ∈ graphsOf t.tr, w.initOf u ≠ some g) → (fixTop w t).vname u = w.vname u)
+    ∧ (∀ m, m ∉ allNodes t.body → (fixTop w t).nname m = w.nname m) := by
+  have inv := fixTop_TInv hok hcl
+  have hiv : ∀ g u, u ∈ w.inits g ↔ w.initOf u = some g := fun g u => hok.mem_iff g u
+  have sc := fixTop_scopes hok hcl w.inits hiv hsc
+  have nd := fixTop_nodes inv.nr hnd
+  refine ⟨fun L hL => ⟨(sc L hL).inj, fun a ha => ((sc L hL).seen a ha).2⟩,
+    fun L hL => ⟨(nd.1 L hL).inj, (nd.1 L hL).named⟩, inv.ok, inv.io, ?_, ?_, nd.2⟩
+  · intro g u
+    show u ∈ ((fixTop w t).dicts g).map (·.2) ↔ _
+    rw [inv.ok.mem_iff g u, inv.io, hiv g u]; rfl
+  · intro u h1 h2
+    refine inv.outside u ?_
+    rintro (h | ⟨g, hg, h⟩)
+    · exact h1 h
+    · exact h2 g hg h
+
+/-- **C15_namefix_call_keeps_unique**: a value whose name was non-empty and different from the names
+of all other values visible together with it (any list of `allScopes` that contains it) keeps its
+name; a node whose name was non-empty and unique among the nodes of its graph keeps its name.
+(False before the fix of D31: `t, t, t_1`.) -/
+theorem C15_namefix_call_keeps_unique (w : World) (t : Top) (hok : InitsOk w) (hcl : Closed w.initOf t)
+    (hsc : scopedB w.inits t.tr [] [] = true) (hnd : (allNodes t.body).Nodup) :
+    (∀ L ∈ allScopes w.inits t.tr [], ∀ v ∈ L, truthy (w.vname v) = true →
+        (∀ u ∈ L, u ≠ v → w.vname u ≠ w.vname v) → (fixTop w t).vname v = w.vname v)
+    ∧ (∀ L ∈ allNodeScopes t.tr, ∀ n ∈ L, truthy (w.nname n) = true →
+        (∀ m ∈ L, m ≠ n → w.nname m ≠ w.nname n) → (fixTop w t).nname n = w.nname n) := by
+  have inv := fixTop_TInv hok hcl
+  have hiv : ∀ g u, u ∈ w.inits g ↔ w.initOf u = some g := fun g u => hok.mem_iff g u
+  exact ⟨fun L hL v hv h1 h2 => (fixTop_scopes hok hcl w.inits hiv hsc L hL).kept v hv h1 h2,
+    fun L hL n hn h1 h2 => ((fixTop_nodes inv.nr hnd).1 L hL).kept n hn h1 h2⟩
+
+/-- **C15_namefix_call_idempotent**: running the call again on its own result changes no name and no
+dictionary, reports `modified = False` and does not raise. -/
+theorem C15_namefix_call_idempotent (w : World) (t : Top) (hok : InitsOk w) (hcl : Closed w.initOf t)
+    (hsc : scopedB w.inits t.tr [] [] = true) (hnd : (allNodes t.body).Nodup) :
+    (fixTop (fixTop w t).toWorld t).toWorld = (fixTop w t).toWorld
+    ∧ (fixTop (fixTop w t).toWorld t).modified = false
+    ∧ (fixTop (fixTop w t).toWorld t).raised = false := by
+  obtain ⟨p1, p2, _, _, p5, _⟩ := C15_namefix_call_post w t hok hcl hsc hnd
+  exact fixTop_stable w.inits (fun g u => p5 g u) hsc p1 hnd p2
+
+
+/-! ## Part B' — the whole pass (`NameFixPass.call` = `fixModel`: main graph, then every function) -/
+
+/-- what the pass-level theorems assume about the model: initializers keyed by names; every
+top-level graph closed, well scoped, without repeated node objects; top-level graphs share
+neither values nor nodes -/
+structure PassWF (w : World) (tops : List Top) : Prop where
+  inits : InitsOk w
+  each : ∀ t ∈ tops, Closed w.initOf t ∧ scopedB w.inits t.tr [] [] = true ∧ (allNodes t.body).Nodup
+  disj : tops.Pairwise (TopDisj w.initOf)
+
+/-- **C15_namefix_total**: the pass never raises on a model whose initializers are keyed by their
+names and are not shared between top-level graphs — whatever the names and whatever the scoping
+(false before the fix of D30) — and the dictionaries stay keyed by the names. -/
+theorem C15_namefix_total (w : World) (tops : List Top) (hok : InitsOk w) (hcl : ∀ t ∈ tops, Closed w.initOf t) :
+    (fixModel w tops).2.2 = false ∧ InitsOk (fixModel w tops).1 ∧ (fixModel w tops).1.initOf = w.initOf :=
+  fixModel_total tops w hok hcl
+
+/-- **C15_namefix_post**: after the pass, for every top-level graph and every graph nested in it:
+all visible values have non-empty, pairwise different names (within the graph and against the
+names recorded in enclosing scopes on entry); all nodes have non-empty names, pairwise different
+per graph; initializer dictionaries are keyed by the current names; `is_initializer`/graph links
+and the value sets of the dictionaries are unchanged; names of values and nodes the pass cannot
+reach are unchanged. -/
+theorem C15_namefix_post (w : World) (tops : List Top) (wf : PassWF w tops) :
+    (∀ t ∈ tops, (∀ L ∈ allScopes w.inits t.tr [], InjT (fixModel w tops).1.vname L)
+                ∧ (∀ L ∈ allNodeScopes t.tr, InjT (fixModel w tops).1.nname L))
+    ∧ (fixModel w tops).2.2 = false
+    ∧ InitsOk (fixModel w tops).1
+    ∧ (fixModel w tops).1.initOf = w.initOf
+    ∧ (∀ g u, u ∈ (fixModel w tops).1.inits g ↔ u ∈ w.inits g)
+    ∧ (∀ u, (∀ t ∈ tops, ¬ TopC w.initOf t u) → (fixModel w tops).1.vname u = w.vname u)
+    ∧ (∀ m, (∀ t ∈ tops, m ∉ allNodes t.body) → (fixModel w tops).1.nname m = w.nname m) := by
+  have hiv : ∀ g u, u ∈ w.inits g ↔ w.initOf u = some g := fun g u => wf.inits.mem_iff g u
+  obtain ⟨t1, t2, t3⟩ := fixModel_total tops w wf.inits (fun t ht => (wf.each t ht).1)
+  obtain ⟨f1, f2⟩ := fixModel_frame tops w wf.inits (fun t ht => ⟨(wf.each t ht).1, (wf.each t ht).2.2⟩)
+  refine ⟨fun t ht => ?_, t1, t2, t3, ?_, f1, f2⟩
+  · have := fixModel_post w.inits tops w wf.inits hiv wf.each wf.disj t ht
+    exact ⟨fun L hL => (this.1 L hL).1, fun L hL => (this.2 L hL).1⟩
+  · intro g u
+    show u ∈ ((fixModel w tops).1.dicts g).map (·.2) ↔ _
+    rw [t2.mem_iff g u, t3, hiv g u]
+
+/-- **C15_namefix_keeps_unique**: a value whose name was non-empty and different from the names of
+all other values visible together with it keeps its name through the whole pass; likewise a node
+whose name was non-empty and unique among the nodes of its graph. (False before the fix of D31.) -/
+theorem C15_namefix_keeps_unique (w : World) (tops : List Top) (wf : PassWF w tops) :
+    ∀ t ∈ tops, (∀ L ∈ allScopes w.inits t.tr [], KeptOn w.vname (fixModel w tops).1.vname L)
+              ∧ (∀ L ∈ allNodeScopes t.tr, KeptOn w.nname (fixModel w tops).1.nname L) := by
+  have hiv : ∀ g u, u ∈ w.inits g ↔ w.initOf u = some g := fun g u => wf.inits.mem_iff g u
+  intro t ht
+  have := fixModel_post w.inits tops w wf.inits hiv wf.each wf.disj t ht
+  exact ⟨fun L hL => (this.1 L hL).2, fun L hL => (this.2 L hL).2⟩
+
+/-- a model in which every top-level graph already satisfies the postcondition is a fixed point -/
+theorem fixModel_stable (iv : Nat → List Nat) (w : World) (hiv : ∀ g u, u ∈ (w.dicts g).map (·.2) ↔ u ∈ iv g) :
+    ∀ (tops : List Top), (∀ t ∈ tops, scopedB iv t.tr [] [] = true ∧ (allNodes t.body).Nodup
+        ∧ (∀ L ∈ allScopes iv t.tr [], InjT w.vname L) ∧ (∀ L ∈ allNodeScopes t.tr, InjT w.nname L)) →
+      fixModel w tops = (w, false, false)
+  | [], _ => rfl
+  | t :: ts, h => by
+    obtain ⟨a, b, c, d⟩ := h t List.mem_cons_self
+    obtain ⟨e1, e2, e3⟩ := fixTop_stable iv hiv a c b d
+    rw [fixModel_cons e3, e1, e2, fixModel_stable iv w hiv ts (fun t' ht' => h t' (List.mem_cons_of_mem _ ht'))]
+    rfl
+
+/-- **C15_namefix_idempotent**: running the pass on its own result changes nothing, reports
+`modified = False` and does not raise. -/
+theorem C15_namefix_idempotent (w : World) (tops : List Top) (wf : PassWF w tops) :
+    fixModel (fixModel w tops).1 tops = ((fixModel w tops).1, false, false) := by
+  obtain ⟨p1, _, _, _, p5, _⟩ := C15_namefix_post w tops wf
+  exact fixModel_stable w.inits _ (fun g u => p5 g u) tops
+    (fun t ht => ⟨(wf.each t ht).2.1, (wf.each t ht).2.2, (p1 t ht).1, (p1 t ht).2⟩)
+
+/-! ## Part C — `convenience.rename_values` -/
+
+/-- **C15_rename_values_atomic**: for *every* assignment (repeated values, swaps, cycles,
+initializers of several graphs, empty targets, targets colliding with initializers inside or
+outside the renamed set) on a world whose initializers are keyed by their names, the call either
+raises and leaves the world exactly as it was, or it does not raise and then the assignment is
+applied completely: every listed value has its target name, no other value changed its name, node
+names and `is_initializer()`/graph links are untouched, every initializer dictionary holds the
+same values and is keyed by the current names. -/
+theorem C15_rename_values_atomic (w : World) (pairs : List (Nat × String)) (hok : InitsOk w) :
+    ((renameValues w pairs).2 = true → (renameValues w pairs).1 = w)
+    ∧ ((renameValues w pairs).2 = false →
+        (∀ p ∈ pairs, (renameValues w pairs).1.vname p.1 = some p.2)
+        ∧ (∀ u, u ∉ pairs.map (·.1) → (renameValues w pairs).1.vname u = w.vname u)
+        ∧ (renameValues w pairs).1.nname = w.nname
+        ∧ (renameValues w pairs).1.initOf = w.initOf
+        ∧ InitsOk (renameValues w pairs).1
+        ∧ ∀ g u, u ∈ (renameValues w pairs).1.inits g ↔ u ∈ w.inits g) :=
+  renameValues_spec w pairs hok
+
+
+/-! ## non-vacuity of the hypotheses of parts B and C -/
+
+/-- the D30 witness: output `w`, initializers `w`, `w_1` of graph 0 -/
+def exW : World :=
+  { vname := fun i => if i = 0 then some "w" else if i = 1 then some "w" else if i = 2 then some "w_1" else none
+    nname := fun i => if i = 0 then some "a" else none
+    initOf := fun i => if i = 1 then some 0 else if i = 2 then some 0 else none
+    dicts := fun g => if g = 0 then [("w", 1), ("w_1", 2)] else [] }
+
+def exT : Top := { gid := 0, isGraph := true, ins := [], outs := [0], body := .node 0 [] [0] .nil .nil }
+
+theorem exW_ok : InitsOk exW := by
+  refine ⟨?_, ?_, ?_⟩
+  · intro g k v h
+    by_cases hg : g = 0
+    · subst hg
+      simp only [exW, if_true, List.mem_cons, Prod.mk.injEq, List.not_mem_nil, or_false] at h
+      rcases h with ⟨rfl, rfl⟩ | ⟨rfl, rfl⟩ <;> simp [exW]
+    · simp [exW, hg] at h
+  · intro g
+    by_cases hg : g = 0
+    · subst hg; simp [exW]
+    · simp [exW, hg]
+  · intro v g h
+    simp only [exW] at h
+    split at h
+    · rename_i hv; subst hv; cases h; exact ⟨"w", by simp [exW]⟩
+    · split at h
+      · rename_i hv; subst hv; cases h; exact ⟨"w_1", by simp [exW]⟩
+      · cases h
+
+/-- `PassWF` is satisfiable, by a model on which the pass has work to do -/
+theorem exWF : PassWF exW [exT] := by
+  refine ⟨exW_ok, ?_, by simp⟩
+  intro t ht
+  simp only [List.mem_singleton] at ht
+  subst ht
+  refine ⟨?_, by decide, by decide⟩
+  intro v hv g hg
+  simp [exT, Top.tr, mentioned, nodeVals] at hv
+  subst hv
+  simp [exW] at hg
+
+/-- ... the initializer `w` is renamed past the not-yet-visited `w_1` (D30), and re-keyed -/
+example : (fixModel exW [exT]).1.vname 1 = some "w_2" ∧ (fixModel exW [exT]).1.vname 2 = some "w_1"
+    ∧ (fixModel exW [exT]).1.dicts 0 = [("w_1", 2), ("w_2", 1)] ∧ (fixModel exW [exT]).2 = (true, false) := by
+  decide
+
+/-- the D31 witness `t, t, t_1` (values) and `n, n, n_1` (nodes) in one graph, plus a function
+whose subgraph captures an outer value: the unique names `t_1` / `n_1` are kept -/
+def exW2 : World :=
+  { vname := fun i => if i = 0 then some "t" else if i = 1 then some "t" else if i = 2 then some "t_1"
+                      else if i = 3 then some "t" else if i = 4 then none else none
+    nname := fun i => if i = 0 then some "n" else if i = 1 then some "n" else if i = 2 then some "n_1" else none
+    initOf := fun _ => none
+    dicts := fun _ => [] }
+
+def exT2 : Top := { gid := 0, isGraph := true, ins := [], outs := [],
+                    body := .node 0 [] [0] .nil (.node 1 [] [1] .nil (.node 2 [] [2] .nil .nil)) }
+/-- function `f(x3)`: node 3 holds a subgraph whose node 4 reads `x3` and produces the unnamed `v4` -/
+def exT3 : Top := { gid := 1, isGraph := false, ins := [3], outs := [],
+                    body := .node 3 [some 3] [] (.graph 2 true [] [4] (.node 4 [some 3] [4] .nil .nil) .nil) .nil }
+
+theorem exWF2 : PassWF exW2 [exT2, exT3] := by
+  refine ⟨⟨fun g k v h => by simp [exW2] at h, fun g => by simp [exW2], fun v g h => by simp [exW2] at h⟩, ?_, ?_⟩
+  · intro t ht
+    simp only [List.mem_cons, List.not_mem_nil, or_false] at ht
+    rcases ht with rfl | rfl
+    · exact ⟨fun v _ g hg => by simp [exW2] at hg, by decide, by decide⟩
+    · exact ⟨fun v _ g hg => by simp [exW2] at hg, by decide, by decide⟩
+  · simp only [List.pairwise_cons, List.mem_singleton, forall_eq, List.not_mem_nil, false_imp_iff, implies_true,
+      List.Pairwise.nil, and_true]
+    refine ⟨?_, by decide⟩
+    intro u h1 h2
+    rcases h1 with h1 | ⟨g, _, hg⟩
+    · rcases h2 with h2 | ⟨g, _, hg⟩
+      · have a : u ∈ [0, 1, 2] := by simpa [exT2, Top.tr, mentioned, nodeVals] using h1
+        have b : u = 3 ∨ u = 4 ∨ u = 3 ∨ u = 4 := by simpa [exT3, Top.tr, mentioned, nodeVals] using h2
+        simp only [List.mem_cons, List.not_mem_nil, or_false] at a
+        omega
+      · simp [exW2] at hg
+    · simp [exW2] at hg
+
+example : ((List.range 5).map (fixModel exW2 [exT2, exT3]).1.vname)
+      = [some "t", some "t_2", some "t_1", some "t", some "v"]
+    ∧ ((List.range 5).map (fixModel exW2 [exT2, exT3]).1.nname)
+      = [some "n", some "n_2", some "n_1", some "node", some "node"] := by
+  decide
+
+/-- `rename_values`: a swap of two initializers goes through; a target held by an initializer
+outside the renamed set is rejected with nothing changed -/
+example : (renameValues exW [(1, "w_1"), (2, "w")]).2 = false
+    ∧ (renameValues exW [(1, "w_1"), (2, "w")]).1.dicts 0 = [("w_1", 1), ("w", 2)]
+    ∧ (renameValues exW [(0, "z"), (1, "w_1")]).2 = true := by
+  decide
 
 end IrVerif.Names
